@@ -578,6 +578,52 @@ pub fn run_step(
                         Rc::new(step_.clone()),
                     ));
                 }
+                SExp::Cons(l, a, b) if matches!(a.borrow(), SExp::Cons(_, _, _)) => {
+                    // ((X) . operands): as in clvm_rs, operator X is applied to
+                    // the operands as they stand, without evaluating them.
+                    let (inner, inner_tail) = match a.borrow() {
+                        SExp::Cons(_, inner, inner_tail) => (inner.clone(), inner_tail.clone()),
+                        _ => (a.clone(), a.clone()),
+                    };
+                    if matches!(inner.borrow(), SExp::Cons(_, _, _))
+                        || matches!(inner_tail.borrow(), SExp::Cons(_, _, _))
+                    {
+                        return Err(RunFailure::RunErr(
+                            l.clone(),
+                            format!("in ((X)...) syntax X must be lone atom {sexp}"),
+                        ));
+                    }
+                    let head = Rc::new(
+                        translate_head(
+                            allocator,
+                            runner.clone(),
+                            prim_map.clone(),
+                            l.clone(),
+                            inner,
+                            context.clone(),
+                        )?
+                        .with_loc(l.clone()),
+                    );
+                    if atom_value(head.clone())? == bi_one() {
+                        return Err(RunFailure::RunErr(
+                            l.clone(),
+                            format!("unimplemented operator {sexp}"),
+                        ));
+                    }
+                    // Operators take their operands up to the first non-pair;
+                    // what terminates the list is not looked at.
+                    let mut operands = Vec::new();
+                    let mut rest = b.clone();
+                    while let SExp::Cons(_, f, r) = rest.clone().borrow() {
+                        operands.push(f.clone());
+                        rest = r.clone();
+                    }
+                    let mut operand_list = Rc::new(SExp::Nil(l.clone()));
+                    for o in operands.iter().rev() {
+                        operand_list = Rc::new(SExp::Cons(l.clone(), o.clone(), operand_list));
+                    }
+                    step = RunStep::Op(head, context.clone(), operand_list, None, parent.clone());
+                }
                 SExp::Cons(l, a, b) => {
                     let head = Rc::new(
                         translate_head(
